@@ -19,7 +19,7 @@ from harness.core import Outcome
 
 @st.composite
 def burst_case(draw):
-    return {"n": draw(st.sampled_from([8, 33, 40, 70])), "async_jobs": draw(st.integers(0, 5)), "seed": draw(st.integers(0, 999)),
+    return {"n": draw(st.sampled_from([40, 33, 70, 8])), "async_jobs": draw(st.integers(0, 5)), "seed": draw(st.integers(0, 999)),
             "timeout": draw(st.sampled_from([2, 600])), "fail_some": draw(st.booleans())}
 
 
